@@ -22,7 +22,7 @@ ARG_MC = {
     'C04': dict(decls=[1, 3, 8], policy=['opts', 'cmds', 'odd', 'unknown', 'help', 'fmt'], popts=DEFAULTISH + ['<<"HelpFlag", "PrintErrors">>'],
                 handlers=['none', 'error'], maxlen=(2, 3), thorough_decls=[3, 5, 7, 9]),
     'C06': dict(decls=[7], policy=['opts', 'cmds', 'clusters'], popts=['<<>>', '<<"PassDoubleDash">>'], handlers=['none'], maxlen=(3, 4), thorough_decls=[7, 3]),
-    'C07': dict(decls=[2, 3, 10], policy=['opts', 'cmds', 'unknown', 'near'], popts=['<<>>', '<<"IgnoreUnknown">>'],
+    'C07': dict(decls=[2, 3, 10], policy=['opts', 'cmds', 'unknown', 'near'], popts=['<<>>', '<<"IgnoreUnknown">>', '<<"IgnoreUnknown", "PassAfterNonOption">>'],
                 handlers=['none', 'identity', 'dropnext', 'dropall', 'inject', 'error'], maxlen=(2, 3), thorough_decls=[2, 3, 10]),
     'C08': dict(decls=[13, 10], policy=['opts', 'cmds', 'odd'], popts=['<<>>', '<<"PassDoubleDash">>'], handlers=['none'], maxlen=(3, 4), thorough_decls=[5, 13]),
     'C09': dict(decls=[3, 5, 7], policy=['opts', 'cmds', 'unknown', 'help'], popts=['<<>>', '<<"HelpFlag">>', '<<"HelpFlag", "PrintErrors", "PassDoubleDash">>'],
